@@ -380,6 +380,64 @@ def c17_present_untouched(tr, origin):
     return out
 
 
+def no_phantom_components(tr, origin):
+    """a synchronized entity carries a replicated component kind only if some operation of the history wrote
+    that kind on that entity (spawn list, write, application command, skin): nothing makes one up"""
+    written = set()
+    for ev in tr['events']:
+        if ev[0] == 'op':
+            w = ev[2]
+            if w[0] == 'spawn':
+                for c in w[3:]:
+                    if ':' in c:
+                        written.add((w[1], int(c.split(':')[0])))
+            elif w[0] == 'write':
+                written.add((w[1], int(w[2])))
+            elif w[0] == 'appcmd' and w[2] == 'insert':
+                written.add((w[3], int(w[4])))
+            elif w[0] == 'skin':
+                written.add((w[1], 8))
+        elif ev[0] == 'frame':
+            f = ev[1]
+            for ident, d in f.ents.items():
+                u = d.get('sync')
+                if not u or u == '-':
+                    continue
+                for t in d['compmap']:
+                    if t < 100 and (u, t) not in written:
+                        return [dict(signature='phantom-component', origin=origin,
+                                     what='peer %d entity of uuid %s carries component %d that no operation ever wrote on it' % (f.peer, u, t))]
+    return []
+
+
+def c09_assets_tight(tr, origin):
+    """Asset histories with one publisher per id in a session whose peers all joined before the first
+    publication (C06_publication_cost): a publication costs at most one message per client (to the host,
+    relayed to the others; or from the host to everybody), nothing is announced back. Whole run."""
+    n = tr['npeers']
+    seen_op = False
+    pubs = 0
+    for ev in tr['events']:
+        if ev[0] == 'op':
+            w = ev[2]
+            if w[0] == 'setup' and seen_op:
+                return []
+            if w[0] == 'addasset':
+                seen_op = True
+                pubs += 1
+    got = 0
+    started = False           # the snapshots of the initial joins (engine default material) are not counted
+    for ev in tr['events']:
+        if ev[0] == 'op' and ev[2][0] == 'addasset':
+            started = True
+        if ev[0] == 'frame' and started:
+            got += sum(1 for frm, m in ev[1].rcv if m[0] in ('mat', 'asset'))
+    if got > pubs * (n - 1):
+        return [dict(signature='asset-update-echoed', origin=origin,
+                     what='%d asset / material announcements were received for %d publications in a session of %d clients (at most one per client and publication)' % (got, pubs, n - 1))]
+    return []
+
+
 def c09_tight(tr, origin):
     """Histories of non-conflicting operations in a session whose peers all joined before the first
     operation: a local change costs at most one message per connected client (C05_messages_per_operation,
